@@ -10,7 +10,9 @@ it walks the AST, so ombott's rule parser is part of what is checked.
 import re
 
 REGEXES = [r'[a-c]+', r'\d{2}', r'a|ab', r'[^/]*x', r'(a|b)c', 'é+', r'[a-z]+?(?=l)', r'\w+\.\w+', r'[^/]*',
-           r'-?\d+', r'-?\d+(\.\d+)?', '.+$']       # the last three are textually the masks of the int / float / path filters
+           r'-?\d+', r'-?\d+(\.\d+)?', '.+$',
+           # context-sensitive at their start: a filter sees the rest of the path as a string of its own ("matched once at the cursor")
+           r'^[a-c]+', r'\b\d+', r'(?<!/)[a-z]+', r'\B7+', r'\A\w+', r'(?<![a-z])x+', r'^\d+$']       # the last three are textually the masks of the int / float / path filters
 NAMES = ['x', 'y', 'z', 'id', 'name_1', '_p', 'Q', 'int', 're']
 LIT_SEGS = ['a', 'ab', 'abc', 'b', 'a1', 'é', 'a-b', 'a.b', 'c', 'end', '1', 'ba']
 
@@ -260,6 +262,8 @@ def sample_value(rng, filt, arg):
         r'[a-c]+': ['a', 'abc', 'cab', 'abd'], r'\d{2}': ['12', '007', '1'], r'a|ab': ['a', 'ab'],
         r'[^/]*x': ['x', 'aax', 'a/x'], r'(a|b)c': ['ac', 'bc', 'cc'], 'é+': ['é', 'ééé', 'e'],
         r'[a-z]+?(?=l)': ['al', 'profil', 'l'], r'\w+\.\w+': ['a.b', 'ab.1', 'a.'], r'[^/]*': ['', 'abc', 'a b'],
+        r'^[a-c]+': ['abc', 'a', 'cab'], r'\b\d+': ['12', '7'], r'(?<!/)[a-z]+': ['intro', 'a'], r'\B7+': ['77', '7'], r'\A\w+': ['w1', 'é'],
+        r'(?<![a-z])x+': ['x', 'xxx'], r'^\d+$': ['12', '7', '1a'],
         r'-?\d+': ['0042', '-7', '12', 'x'], r'-?\d+(\.\d+)?': ['1.50', '-3', '007', '1.'], '.+$': ['a/b', 'x', 'é/1'],
     }.get(arg, ['a']))
 
